@@ -228,6 +228,7 @@ func runC19(e *Engine, r *Report) {
 	}
 	ruleRestoreRebase(e, r)
 	ruleLogReaderRebase(e, r)
+	ruleLogReaderNoCache(e, r)
 	ruleTermInMemFirst(e, r)
 	ruleAppliedPair(e, r)
 	ruleAppendSetsRange(e, r)
